@@ -20,6 +20,7 @@ import (
 	"github.com/tetratelabs/wazero"
 	"github.com/tetratelabs/wazero/api"
 	"github.com/tetratelabs/wazero/experimental"
+	"github.com/tetratelabs/wazero/sys"
 	"github.com/tetratelabs/wazero/verifshim/simrt"
 
 	"verifharness/sim"
@@ -57,6 +58,7 @@ func (c10) Describe() sim.Description {
 		Level: "exploration",
 		Rule: "2-4 simulated clients (baton-scheduled real goroutines, exactly one runs), each a tape-generated list of 2-6 operations over names {\"\",a,b}, two tiny binaries and a host module: InstantiateModule(bin|host, name) with a CloseNotifier, Module(name), Close/CloseWithExitCode on a held or looked-up handle, IsClosed, CompileModule, CompiledModule.Close, Runtime.Close/CloseWithExitCode. " +
 			"The scheduler switches tasks at yield points (every statement of runtime.go, builder.go, store.go, store_module_list.go, module_instance.go; every lock, atomic and Once operation) per tape: uniform, PCT-style with 1-3 change points, or sequential. " +
+			"A fifth of the instantiations (class registry) use a module whose configured start function fails inside a host function -- by sys.ExitError(3), sys.ExitError(0) or a panic -- after the instance was registered: the history records an instantiation before the host function's stamp and a close after it, so the name must be free and the instance closed when InstantiateModule returns. " +
 			"Invoke/return events are stamped with the global event sequence number; porcupine checks the history (plus a final sequential probe) against the atomic-registry specification; outside porcupine: no operation panics, no deadlock, each close notification fires at most once and exactly once for closed modules. " +
 			"Non-trivial: at least one task switch happened inside an operation; distinct = distinct task-switch traces",
 		RealCode:    []string{"runtime.go", "builder.go", "internal/wasm store.go / store_module_list.go / module_instance.go", "both engines' compiled-module tables (lock-level yields)", "experimental.CloseNotifier"},
@@ -371,6 +373,19 @@ var (
 	}()
 )
 
+// binD imports xh.boom and exports three start functions s1..s3 = boom(1..3)
+var binD = func() []byte {
+	m := &wasmb.Module{}
+	ti := m.AddType([]wasmb.ValType{wasmb.I32}, nil)
+	m.Imports = append(m.Imports, wasmb.Import{Module: "xh", Name: "boom", Kind: wasmb.KindFunc, TypeIdx: ti})
+	for k := int32(1); k <= 3; k++ {
+		c := &wasmb.Code{}
+		c.I32Const(k).Call(0)
+		m.AddFunc(nil, nil, nil, c.B, fmt.Sprintf("s%d", k))
+	}
+	return m.Encode()
+}()
+
 const knownCompiledErr = "source module must be compiled before instantiation"
 
 type planOp struct {
@@ -380,6 +395,10 @@ type planOp struct {
 	code uint32
 	pick int  // index into held handles
 	look bool // close/isClosed a looked-up handle instead of a held one
+	// start > 0: instantiate binD with a configured start function that fails after the instance was
+	// registered: 1 = a host function raises sys.ExitError(3) (the instance itself did not exit),
+	// 2 = the same with exit code 0 (InstantiateModule then returns the closed module and no error), 3 = panic
+	start int
 }
 
 // contextClose: the asynchronous close path (close-on-context-done watcher,
@@ -652,6 +671,36 @@ func (c10) Run(t *tape.Tape, cfg sim.Config) (res sim.Result) {
 		shared[i] = cm
 	}
 	withHandles := cfg.Class == "compiled-handles"
+	// failing start functions: the instance is registered, its start function reaches the host function
+	// below (which stamps the history: the registration lies before the stamp, the close after it) and fails
+	type transient struct {
+		mod       api.Module
+		mid, mid2 int64
+	}
+	var seq int64
+	transients := map[int]*transient{} // by task id
+	var cmD wazero.CompiledModule
+	if !withHandles {
+		if _, err := rt.NewHostModuleBuilder("xh").NewFunctionBuilder().WithFunc(func(_ context.Context, mod api.Module, kind uint32) {
+			if cur := simrt.Current(); cur != nil {
+				seq += 2
+				transients[cur.ID] = &transient{mod: mod, mid: seq - 1, mid2: seq}
+			}
+			switch kind {
+			case 1:
+				panic(sys.NewExitError(3))
+			case 2:
+				panic(sys.NewExitError(0))
+			}
+			panic("boom")
+		}).Export("boom").Instantiate(ctx); err != nil {
+			panic(err)
+		}
+		var err error
+		if cmD, err = rt.CompileModule(ctx, binD); err != nil {
+			panic(err)
+		}
+	}
 	lctx := experimental.WithFunctionListenerFactory(ctx, experimental.FunctionListenerFactoryFunc(func(api.FunctionDefinition) experimental.FunctionListener {
 		return nopListener{}
 	}))
@@ -670,6 +719,9 @@ func (c10) Run(t *tape.Tape, cfg sim.Config) (res sim.Result) {
 			p := planOp{kind: k, name: tape.Pick(t, names), bin: t.Choose(2), code: uint32(t.Choose(4)), pick: t.Choose(8), look: t.Chance(1, 3)}
 			if k == opInstHost {
 				p.name = tape.Pick(t, []string{"a", "b", "hostm"})
+			}
+			if k == opInst && !withHandles && t.Chance(1, 5) {
+				p.start = 1 + t.Choose(3)
 			}
 			if (k == opCompile || k == opCloseCompiled) && !withHandles {
 				p.bin = 2 // a binary nobody instantiates
@@ -709,7 +761,6 @@ func (c10) Run(t *tape.Tape, cfg sim.Config) (res sim.Result) {
 	}
 
 	// shared harness state (only the baton holder touches it)
-	var seq int64
 	var hist []histOp
 	ids := map[api.Module]int{}
 	nextID := 0
@@ -740,6 +791,7 @@ func (c10) Run(t *tape.Tape, cfg sim.Config) (res sim.Result) {
 	for i := range clients {
 		clients[i] = &clientState{}
 	}
+	startFailures := 0
 	doOp := func(c int, p planOp) {
 		cs := clients[c]
 		in := input{Kind: p.kind, Name: p.name, Bin: p.bin, Code: p.code}
@@ -795,7 +847,35 @@ func (c10) Run(t *tape.Tape, cfg sim.Config) (res sim.Result) {
 						}
 					}
 				}))
-				mod, err := rt.InstantiateModule(nctx, shared[p.bin], wazero.NewModuleConfig().WithName(p.name))
+				var mod api.Module
+				var err error
+				if p.start > 0 {
+					cur := simrt.Current()
+					delete(transients, cur.ID)
+					mod, err = rt.InstantiateModule(nctx, cmD, wazero.NewModuleConfig().WithName(p.name).WithStartFunctions(fmt.Sprintf("s%d", p.start)))
+					if tr := transients[cur.ID]; tr != nil {
+						// registered, started, failed: an instantiation that succeeded before the stamp and a
+						// close after it; whatever else is returned, the instance is closed and its name free
+						delete(transients, cur.ID)
+						id := idOf(tr.mod)
+						modNotify[id] = cnt
+						notifyCount[len(notifyCount)] = cnt
+						if (p.start == 2) != (err == nil) || (p.start == 2 && mod != tr.mod) {
+							res.Fail("start-failure-result", "client %d: instantiate(%q) with a start function failing by %s returned (%v, %v)", c, p.name, []string{"", "exit(3)", "exit(0)", "panic"}[p.start], mod != nil, firstLine(err))
+						}
+						if err == nil {
+							cs.mods = append(cs.mods, mod)
+						}
+						hist = append(hist, histOp{client: c, in: in, out: output{OK: true, Mod: id}, call: call, ret: tr.mid})
+						in = input{Kind: opClose, Mod: id}
+						out = output{OK: true}
+						call = tr.mid2
+						startFailures++
+						return
+					}
+				} else {
+					mod, err = rt.InstantiateModule(nctx, shared[p.bin], wazero.NewModuleConfig().WithName(p.name))
+				}
 				if err == nil {
 					self = mod
 					out.OK, out.Mod = true, idOf(mod)
@@ -911,6 +991,7 @@ func (c10) Run(t *tape.Tape, cfg sim.Config) (res sim.Result) {
 	res.Stat("probe.task_switches", int64(s.Switches))
 	res.Stat("probe.yields", int64(s.Yields))
 	res.Stat("probe.policy_"+[]string{"uniform", "pct", "sequential"}[policy], 1)
+	res.Stat("probe.instantiations_failing_in_a_start_function_after_registration", int64(startFailures))
 	res.Nontrivial = s.Switches > 0
 	res.Shape = sim.ShapeOf(s.Trace...)
 	for _, o := range hist {
